@@ -463,7 +463,11 @@ def run(ctx):
             continue
         for sig, what in r[1]:
             ctx.violation(sig, what, {"kind": "trace", "task": list(t)})
+    # WHFast512 exists only in the AVX512 build: its part runs in a process of its own (mc/w512.py)
+    from .. import w512
+    n_w512 = w512.run(ctx, "C08")
     cov = {
+        "whfast512_cases": n_w512,
         "states": len(tasks) + len(etasks) + len(ttasks), "transitions": ncalls + len(etasks), "traces_validated_against_impl": len(tasks) + len(etasks),
         "samples": [{"contract_case": list(tasks[0])}, {"exit_case": list(etasks[0])}],
         "contract_cases": len(tasks), "exit_cases": len(etasks), "integrators": integs,
